@@ -35,16 +35,17 @@ def run(tier):
     long = PC2.schedules(chk, "query", 40, 2, simulate="num=%d" % (20 if tier == "quick" else 300), label="query_long")
     rnd = random.Random(C.seed() + 23)
     rnd.shuffle(scheds)
-    qbase = PC2.base_cfgs(tier, 3300000, QUERY_OK, 3 if tier == "quick" else 12, seedoff=2, n_choices=(100,))
+    qbase = PC2.base_cfgs(tier, 3300000, QUERY_OK, 4 if tier == "quick" else 12, seedoff=2, n_choices=(100,), vary=True)
     jobs, plan = [], []
     k = 0
-    every = ["A", "A"] + ["A", "A", "Q"] * 39          # a query after every round from the second on
+    every = ["A", "A"] + ["A", "A", "Q"] * 89          # a query after every round from the second on
     plan_sc = [(sc, None) for sc in scheds[: (30 if tier == "quick" else 400)] + long] + [(every, c) for c in qbase]
     for sc, fixed in plan_sc:
         c = fixed if fixed is not None else rnd.choice(qbase)
         k += 2
-        a = dict(c, id=4000000 + k, T=40)
-        b = PC2.with_queries(dict(c, id=4000001 + k, T=40), sc)
+        TT = 90 if fixed is not None else 40
+        a = dict(c, id=4000000 + k, T=TT)
+        b = PC2.with_queries(dict(c, id=4000001 + k, T=TT), sc)
         jobs += [a, b]
         plan.append((a["id"], b["id"], sc))
     res = {t["id"]: t for t in S.pmap(S.run_session, jobs)}
